@@ -4,5 +4,13 @@ package apd
 
 // verifHarnesses maps harness names (as used by the engine) to their native entry points.
 var verifHarnesses = map[string]func(){
-	"VerifRound": VerifRound,
+	"VerifRound":     VerifRound,
+	"VerifAdd":       VerifAdd,
+	"VerifMul":       VerifMul,
+	"VerifQuo":       VerifQuo,
+	"VerifAbsNeg":    VerifAbsNeg,
+	"VerifCmp":       VerifCmp,
+	"VerifQuantize":  VerifQuantize,
+	"VerifCeilFloor": VerifCeilFloor,
+	"VerifCmpTotal":  VerifCmpTotal,
 }
